@@ -63,7 +63,7 @@ macro_rules! core_configs {
             $m!($run, d32, 10, BigRef);
             $m!($run, d64, 8, BigRef);
             $m!($run, d64, 16, BigRef);
-            $m!($run, d64, 128, BigRef);
+            $m!($run, d64, 64, BigRef);
         }
     };
 }
